@@ -156,6 +156,16 @@ func (w *World) Entries(repo, id string) ([]Entry, error) {
 	return out, nil
 }
 
+// LocalDir returns a consumable store on a fresh directory of the local file system, and a function that removes it.
+func LocalDir() (storage.Store, func()) {
+	_ = os.MkdirAll("/root/.cache/verif/tmp", 0o755)
+	tmp, err := os.MkdirTemp("/root/.cache/verif/tmp", "dir")
+	if err != nil {
+		panic(err)
+	}
+	return localfs.New(afero.NewBasePathFs(afero.NewOsFs(), tmp), localfs.WithRetry(false), localfs.WithLogger(Nop)), func() { os.RemoveAll(tmp) }
+}
+
 // Download publishes a bundle (optionally filtered) into a fresh directory of the local file system
 // (the leaves of a file are written concurrently with WriteAt, which an in-memory afero file does not support).
 func (w *World) Download(repo, id string, concurrency int, pred func(string) (bool, error)) ([]File, error) {
